@@ -28,7 +28,7 @@ try:
     after = build_run(os.path.join(work, 'include'), 'after')
     print('demo: unpatched ->', before, ' patched ->', after)
     results = {}
-    for c in checks:
+    for c in [x for x in checks if x]:
         env = dict(os.environ, VERIF_REPO=work, VERIF_EVIDENCE_DIR=os.path.join(work, 'ev'))
         r = subprocess.run(['python3', '/verif/bin/check', c, '--tier', os.environ.get('TIER', 'quick')], capture_output=True, text=True, env=env)
         lines = [l for l in r.stdout.splitlines() if l.startswith(('VIOLATION', 'KNOWN-FINDING', 'INFRA'))]
